@@ -318,6 +318,7 @@ def ob_announce(run, oid):
 
 
 def check(run):
+    D.ob_state_mutations(run, "O3.7", ['consensus::pool::slot_state::SlotState', 'consensus::pool::slot_state::SlotVotes', 'consensus::pool::slot_state::SlotVotedStake', 'consensus::pool::slot_state::SlotCertificates'], 'votes, stake counters and certificates are the record every certificate is justified by: an extra overwrite/removal makes emitted certificates unjustified or repeated')
     ob_store_before_aggregate(run, "O3.1")
     ob_thresholds_creation(run, "O3.2")
     ob_once(run, "O3.3")
